@@ -8,6 +8,7 @@ f (facts attached by the harness) and p (shape parameters); it must characterise
 failing inputs / call site, so that any other violation of the same property is still reported.
 A `fixed:` line suppresses nothing.  The file is never written at run time."""
 import re, shlex
+import finding_helpers as _fh
 
 
 class _D(dict):
@@ -25,7 +26,7 @@ def load(path, pid):
         ln = ln.strip()
         if not ln.startswith('known:'):
             continue
-        head, _, text = ln[6:].partition('::')
+        head, _, text = ln[6:].partition(' :: ')
         kv = {}
         for tok in shlex.split(head):
             k, _, v = tok.partition('=')
@@ -52,7 +53,7 @@ def match(known, res, v):
         if not re.search(kf['label'], v['label']):
             continue
         try:
-            if eval(kf['when'], {'__builtins__': {'abs': abs, 'min': min, 'max': max, 'any': any, 'all': all, 'range': range, 'int': int, 'str': str, 'len': len}}, {'i': ins, 'f': facts, 'p': params}):
+            if eval(kf['when'], {'__builtins__': {'pip_rows': _fh.pip_rows, 'pip_has_equality': _fh.pip_has_equality, 'pip_incremental': _fh.pip_incremental, 'pip_forces_zero': _fh.pip_forces_zero, 'abs': abs, 'min': min, 'max': max, 'any': any, 'all': all, 'range': range, 'int': int, 'str': str, 'len': len}}, {'i': ins, 'f': facts, 'p': params}):
                 return kf
         except Exception:
             continue
